@@ -89,20 +89,20 @@ Proof. unfold g_color_write_global. rewrite g_as_choice_eq, g_write_global_eq. r
 
 (* ---- anstream::auto::choice ---------------------------------------------------------------- *)
 
+(* robust to the spelling of the decision (if/else chain | early returns | a private helper that is inlined |
+   `x.unwrap_or(false)` | `x == Some(true)` | a `match` on the option ..): the callees are replaced by their hand
+   models wherever they occur, then the decision is compared on the whole truth table of the probes
+   (2 * 2 * 3 * 2 * 2 * 2 = 96 closed cases); no step depends on the shape of the generated term *)
 Lemma g_choice_eq e user raw : g_choice e user raw = ch_choice_fn e user raw.
 Proof.
   unfold g_choice, ch_choice_fn. rewrite g_global_eq.
   destruct (ch_global user) as [g|]; [|reflexivity].
   destruct g; try reflexivity.
-  unfold choice_model. rewrite g_clicolor_eq, g_no_color_eq, g_clicolor_force_eq, g_term_supports_color_eq, g_is_ci_eq.
-  cbv zeta. unfold ch_raw_is_terminal.
-  change (@opt_unwrap_or bool) with (@ch_unwrap_or bool).
-  destruct (ch_no_color e); [reflexivity|].
-  destruct (ch_clicolor_force e); [reflexivity|].
-  destruct (negb (ch_unwrap_or (ch_clicolor e) true)); [reflexivity|].
-  destruct raw; [|reflexivity].
-  cbn [andb].
-  destruct (ch_term_supports_color e || ch_unwrap_or (ch_clicolor e) false || ch_is_ci e); reflexivity.
+  unfold choice_model.
+  rewrite ?g_clicolor_eq, ?g_no_color_eq, ?g_clicolor_force_eq, ?g_term_supports_color_eq, ?g_is_ci_eq.
+  unfold ch_raw_is_terminal.
+  destruct (ch_no_color e), (ch_clicolor_force e), (ch_clicolor e) as [[|]|], raw, (ch_term_supports_color e), (ch_is_ci e);
+    reflexivity.
 Qed.
 
 (* AutoStream::<S>::choice(&raw) forwards to it *)
